@@ -373,4 +373,59 @@ theorem snodeVisit_fold (kcol first m L : Nat) (ls0 : Array Nat) (mk0 : Array In
           exact h.frame k (by omega)
       have := ih _ (acc ++ [r]) hinv (fun x hx => hr x (List.mem_cons_of_mem _ hx)) hcap
       exact ⟨this.1, this.2⟩
+
+theorem snodeVisit_fold_supno (kcol : Nat) (rows : List Nat) (st : SnodeSt) :
+    (rows.foldl (snodeVisit kcol) st).supno = st.supno := by
+  induction rows generalizing st with
+  | nil => rfl
+  | cons r rs ih => rw [List.foldl_cons, ih]; unfold snodeVisit; split <;> rfl
+
+theorem snodeCols_fold (kcol first m L : Nat) (ls0 : Array Nat) (mk0 : Array Int) (nsuper : Int) (asub xaB xaE : Array Nat) :
+    ∀ (cols : List Nat) (st : SnodeSt) (acc : List Nat), SnodeInv kcol first m L ls0 mk0 st acc →
+      (∀ i ∈ cols, ∀ r ∈ colRows asub xaB xaE i, r < m) →
+      first + (markerFilter (cols.flatMap (colRows asub xaB xaE)) acc).length ≤ L →
+      SnodeInv kcol first m L ls0 mk0 (cols.foldl (snodeCol kcol nsuper asub xaB xaE) st)
+        (markerFilter (cols.flatMap (colRows asub xaB xaE)) acc) := by
+  intro cols
+  induction cols with
+  | nil => intro st acc h _ _; simpa [markerFilter] using h
+  | cons i is ih =>
+    intro st acc h hr hcap
+    simp only [List.flatMap_cons, markerFilter_append, List.foldl_cons] at hcap ⊢
+    have hle := markerFilter_length_le (is.flatMap (colRows asub xaB xaE)) (markerFilter (colRows asub xaB xaE i) acc)
+    have h1 := (snodeVisit_fold kcol first m L ls0 mk0 (colRows asub xaB xaE i) st acc h
+      (hr i (List.mem_cons_self ..)) (by omega)).1
+    have h2 : SnodeInv kcol first m L ls0 mk0 (snodeCol kcol nsuper asub xaB xaE st i) (markerFilter (colRows asub xaB xaE i) acc) :=
+      ⟨h1.nextl, h1.seg, h1.mark, h1.mark_else, h1.msize, h1.lsize, h1.frame⟩
+    exact ih _ _ h2 (fun j hj => hr j (List.mem_cons_of_mem _ hj)) hcap
+
+theorem snodeCols_fold_supno (kcol : Nat) (nsuper : Int) (asub xaB xaE : Array Nat) (cols : List Nat) (st : SnodeSt) :
+    (cols.foldl (snodeCol kcol nsuper asub xaB xaE) st).supno = cols.foldl (fun s i => s.setIfInBounds i nsuper) st.supno := by
+  induction cols generalizing st with
+  | nil => rfl
+  | cons i is ih =>
+    rw [List.foldl_cons, List.foldl_cons, ih]
+    show List.foldl _ (((colRows asub xaB xaE i).foldl (snodeVisit kcol) st).supno.setIfInBounds i nsuper) is = _
+    rw [snodeVisit_fold_supno]
+
+theorem copyDup_spec : ∀ (n ifrom ito : Nat) (ls : Array Nat), ifrom + n ≤ ito → ito + n ≤ ls.size →
+    (copyDup n ifrom ito ls).size = ls.size ∧
+    ∀ k, (copyDup n ifrom ito ls).getD k 0 = if ito ≤ k ∧ k < ito + n then ls.getD (ifrom + (k - ito)) 0 else ls.getD k 0 := by
+  intro n
+  induction n with
+  | zero => intro ifrom ito ls _ _; simp [copyDup]
+  | succ n ih =>
+    intro ifrom ito ls h1 h2
+    rw [copyDup]
+    have := ih (ifrom+1) (ito+1) (ls.setIfInBounds ito (ls.getD ifrom 0)) (by omega) (by simp; omega)
+    refine ⟨by rw [this.1]; simp, ?_⟩
+    intro k
+    rw [this.2 k]
+    by_cases hk : ito + 1 ≤ k ∧ k < ito + 1 + n
+    · rw [if_pos hk, if_pos (by omega), getD_setIfInBounds, if_neg (by omega)]
+      congr 1; omega
+    · rw [if_neg hk, getD_setIfInBounds]
+      by_cases hk2 : k = ito
+      · subst hk2; rw [if_pos ⟨rfl, by omega⟩, if_pos (by omega)]; simp
+      · rw [if_neg (by omega), if_neg (by omega)]
 end Slu.SymbArr
